@@ -4,7 +4,7 @@
 From Coq Require Import String.
 From Coq Require Import List Ascii ZArith Bool.
 From CGV Require Import Base.PyBase Base.PyVal Gen.ResolveGen Resolve.Bonding Resolve.BondingDefs Resolve.BondingSpec
-     Resolve.BondingProofs Resolve.BondingCheck.
+     Resolve.BondingSym Resolve.BondingProofs Resolve.BondingCheck.
 Import ListNotations.
 Open Scope Z_scope.
 
@@ -20,6 +20,12 @@ Proof. exact Compat_legacy_sound. Qed.
 Theorem C03_compat_new_meaning : forall lk lt rk rt, Compat false lk lt rk rt = true ->
   (lk = rk /\ (lk = "$"%char \/ lk = "!"%char)) \/ (lk = "<"%char /\ rk = ">"%char) \/ (lk = ">"%char /\ rk = "<"%char).
 Proof. exact Compat_new_sound. Qed.
+
+(** the generated test is symmetric: whether two descriptors may pair does not depend on which
+    of the two fragments is scanned as the source *)
+Theorem C03_compatible_symmetric : forall legacy l r b b',
+  compatible l r legacy = Ok b -> compatible r l legacy = Ok b' -> b = b'.
+Proof. exact compatible_sym. Qed.
 
 Section C03.
   Variables (legacy : bool) (arom : Z -> bool) (edges : list (Z * Z * Z)) (s0 s1 : cstate) (bonds : list bond).
@@ -63,6 +69,7 @@ Proof.
 Qed.
 
 Print Assumptions C03_compatible_is_spec.
+Print Assumptions C03_compatible_symmetric.
 Print Assumptions C03_only_across_base_edges.
 Print Assumptions C03_at_most_order.
 Print Assumptions C03_pair_compatible.
